@@ -1086,6 +1086,10 @@ func (fr *Frame) escapeArgs(c *ssa.CallCommon, st *State) {
 		switch a.Type().Underlying().(type) {
 		case *types.Slice:
 			fr.vc.markEscaped(st, fr.val(a))
+		case *types.Interface:
+			// pointers boxed into an interface by this function are marked where they
+			// are boxed (MakeInterface); an interface value of unknown provenance is not
+			// tracked (its untyped payload would alias arbitrary addresses)
 		case *types.Pointer:
 			// struct fields live in per-field arrays that libframe treats by type;
 			// only cells (pointers to non-aggregate values) need an escape bit
